@@ -351,6 +351,7 @@ func runOne(world, prop string, seed uint64, rp *Replay) *Result {
 			time.Sleep(time.Until(time.Date(2026, 1, 1, 0, 0, 0, 0, time.UTC)))
 			rc.start = time.Now()
 			rc.Net = simnet.NewWorld()
+			rc.Net.Yield = simrt.Y
 			simnet.Install(rc.Net)
 			rc.Sched = &simrt.Sched{}
 			simrt.Install(rc.Sched)
